@@ -230,8 +230,13 @@ def ground_truth(chk, prog):
             chk.finding("GROUND-TRUTH", SENS, "Sensors.__init__", "self.rotations is not self.quaternions.to_DCM()", "rotations value-numbers to %s" % rot, line=f.node.lineno)
     # generate is called with self.rotations
     calls = [n for n in ast.walk(f.node) if isinstance(n, ast.Call) and ast.unparse(n.func) == "self.generate"]
-    if len(calls) == 1 and len(calls[0].args) == 1 and ast.unparse(calls[0].args[0]) == "self.rotations":
+    def _gen_arg(c_):
+        a_ = list(c_.args) + [k.value for k in c_.keywords]
+        return ast.unparse(a_[0]) if len(a_) == 1 else None
+    if len(calls) == 1 and _gen_arg(calls[0]) == "self.rotations":
         chk.record("GROUND-TRUTH", f.ref + "::generate", "generate() receives self.rotations")
+    elif len(calls) != 1 or _gen_arg(calls[0]) is None or not _gen_arg(calls[0]).startswith("self."):
+        chk.error("GROUND-TRUTH: the call self.generate(<rotations>) of Sensors.__init__ is not in the recognised form (cannot decide): %s" % [ast.unparse(c_)[:60] for c_ in calls])
     else:
         chk.finding("GROUND-TRUTH", SENS, "Sensors.__init__", "generate not called with self.rotations", "sensor data are generated from other rotations than the reported ones", line=f.node.lineno)
     # the given-quaternion arm derives angular positions and velocities from the same object
